@@ -72,8 +72,8 @@ def obligations(tier):
     obs = []
     ante = ["c05_twin_compared", "c05_crash_points"]
     if tier == "quick":
-        bits = [("D01", 3), ("D02", 4), ("D04", 4), ("D08", 3), ("D09", 5), ("D10c", 4), ("D16", 2)]
-        one = [("D03", 4), ("D06p", 5), ("D07", 5), ("D10", 5), ("D11", 5), ("D12p", 6), ("D13i", 4), ("D09b", 8)]
+        bits = [("D01", 3), ("D02", 4), ("D04", 4), ("D08", 3), ("D09", 5), ("D10c", 4), ("D16", 2), ("D25", 3)]
+        one = [("D03", 4), ("D06p", 5), ("D07", 5), ("D10", 5), ("D11", 5), ("D12p", 6), ("D13i", 4), ("D09b", 8), ("D22", 6)]
         two = []
     else:
         bits = [("D01", 3), ("D02", 5), ("D04", 5), ("D08", 3), ("D09", 8), ("D10c", 5), ("D16", 2), ("D03", 4)]
